@@ -131,6 +131,14 @@ Theorem program_unwrap_correct :
 Proof. exact program_unwrap_proof. Qed.
 Print Assumptions program_unwrap_correct.
 
+(* ---- inside the property's geometry the constructor refuses exactly the two documented cases ---- *)
+Theorem constructor_refuses_exactly :
+  forall f d en b ra ps inv,
+    0 <= f -> 0 <= d -> (d = 0 \/ (0 < d < f /\ f <= 16 /\ f - d <= 14)) ->
+    (new_unwrapper f d en b ra ps inv = Panic <-> en = true /\ (d = 0 \/ ra <= 0)).
+Proof. exact constructor_refuses_exactly_proof. Qed.
+Print Assumptions constructor_refuses_exactly.
+
 (* ---- link to the correspondence check: the model's observation of every experiment passes the checker ---- *)
 Theorem unwrap_model_passes_checker :
   forall k chunks, Forall (Forall is16) chunks -> C12_check k chunks (observe k chunks) = true.
